@@ -707,7 +707,7 @@ def m_slice_contains(ex, n, a, f):
 
 
 # ---- generic iterator methods over IterV (slice::Iter, vec::IntoIter)
-ITER_PAT = r'^<(std::slice::Iter(Mut)?<.*>|std::vec::IntoIter<.*>|std::array::IntoIter<.*>|std::collections::btree_(map|set)::(Iter|IterMut|IntoIter|Keys|Values|ValuesMut|IntoKeys|IntoValues)<.*>|std::vec::Drain<.*>|std::slice::ChunksMut<.*>) as std::iter::(Iterator|DoubleEndedIterator|ExactSizeIterator)>::'
+ITER_PAT = r'^<(std::slice::Iter(Mut)?<.*>|std::vec::IntoIter<.*>|std::array::IntoIter<.*>|std::collections::btree_(map|set)::(Iter|IterMut|IntoIter|Keys|Values|ValuesMut|IntoKeys|IntoValues)<.*>|std::collections::hash_(map|set)::(Iter|IterMut|IntoIter|Keys|Values|ValuesMut|IntoKeys|IntoValues)<.*>|std::vec::Drain<.*>|std::slice::ChunksMut<.*>) as std::iter::(Iterator|DoubleEndedIterator|ExactSizeIterator)>::'
 
 
 @model(ITER_PAT + r'next$')
@@ -1503,6 +1503,15 @@ class BTreeMapV:
         return f"BTreeMap({len(self.entries)} entries)"
 
 
+class HashMapV(BTreeMapV):
+    """HashMap / HashSet: same abstract container; the ITERATION ORDER is arbitrary (std seeds SipHash with per-thread
+    random keys): every iteration picks one of the n! orders by a nondeterministic choice of the executor"""
+    __slots__ = ()
+
+    def __repr__(self):
+        return f"HashMap({len(self.entries)} entries)"
+
+
 def sort_key(ex, k):
     k = ex.deref(k) if isinstance(k, Ref) else k
     if isinstance(k, bool):
@@ -1562,7 +1571,7 @@ _old_deep_extra2 = deep_extra
 
 def deep_extra(v, deep):
     if isinstance(v, BTreeMapV):
-        return BTreeMapV([[e[0], e[1], Cell(deep(e[2].v))] for e in v.entries])
+        return type(v)([[e[0], e[1], Cell(deep(e[2].v))] for e in v.entries])
     if isinstance(v, RcV):
         return v
     return _old_deep_extra2(v, deep)
@@ -1595,7 +1604,7 @@ def m_bts_insert(ex, n, a, f):
 # HashSet: membership / insertion only (iteration order is randomised in the real type and refused here)
 @model(r'^std::collections::HashSet::<.*>::new$', r'^<std::collections::HashSet<.*> as std::default::Default>::default$')
 def m_hs_new(ex, n, a, f):
-    return BTreeMapV()
+    return HashMapV()
 
 
 @model(r'^std::collections::HashSet::<.*>::insert$')
@@ -1683,7 +1692,19 @@ def m_bt_clear(ex, n, a, f):
     return UNIT
 
 
+def hash_order(ex, m):
+    """entries of a HashMapV in a nondeterministically chosen order"""
+    rest = list(m.entries)
+    out = []
+    while len(rest) > 1:
+        out.append(rest.pop(ex.choose(len(rest), 'hash-iteration-order')))
+    ex.ghost['hash_iterations'] = ex.ghost.get('hash_iterations', 0) + 1
+    return out + rest
+
+
 def bt_iter(ex, m, mode):
+    if isinstance(m, HashMapV):
+        m = BTreeMapV(hash_order(ex, m))
     if mode == 'map':
         return IterV([Cell(Tup([Ref(Cell(e[1])), Ref(e[2])])) for e in m.entries], by_value=True)
     if mode == 'keys':
@@ -1854,6 +1875,103 @@ def m_bt_entry_or_insert(ex, n, a, f):
             v = a[1]
         e.map.entries.insert(i, [sort_key(ex, e.key), e.key, Cell(v)])
     return Ref(e.map.entries[i][2])
+
+
+# HashMap / HashSet: the BTreeMap models on a HashMapV (membership by key; iteration order arbitrary, see hash_order)
+@model(r'^std::collections::HashMap::<.*>::(new|with_capacity)$', r'^<std::collections::HashMap<.*> as std::default::Default>::default$',
+       r'^std::collections::HashSet::<.*>::with_capacity$')
+def m_hm_new(ex, n, a, f):
+    return HashMapV()
+
+
+@model(r'^std::collections::HashMap::<.*>::insert$')
+def m_hm_insert(ex, n, a, f):
+    return m_bt_insert(ex, n, a, f)
+
+
+@model(r'^std::collections::HashMap::<.*>::(get|get_mut)::<', r'^std::collections::HashMap::<.*>::get_key_value::<')
+def m_hm_get(ex, n, a, f):
+    return m_bt_get(ex, n, a, f)
+
+
+@model(r'^std::collections::HashMap::<.*>::contains_key::<')
+def m_hm_contains(ex, n, a, f):
+    return bt_find(ex.deref(a[0]), sort_key(ex, a[1]))[1]
+
+
+@model(r'^std::collections::HashMap::<.*>::remove::<')
+def m_hm_remove(ex, n, a, f):
+    return m_bt_remove(ex, n, a, f)
+
+
+@model(r'^std::collections::Hash(Map|Set)::<.*>::len$')
+def m_hm_len(ex, n, a, f):
+    return len(ex.deref(a[0]).entries)
+
+
+@model(r'^std::collections::Hash(Map|Set)::<.*>::is_empty$')
+def m_hm_is_empty(ex, n, a, f):
+    return len(ex.deref(a[0]).entries) == 0
+
+
+@model(r'^std::collections::HashMap::<.*>::(iter|iter_mut)$', r'^<&(mut )?std::collections::HashMap<.*> as std::iter::IntoIterator>::into_iter$')
+def m_hm_iter(ex, n, a, f):
+    return bt_iter(ex, ex.deref(a[0]), 'map')
+
+
+@model(r'^std::collections::HashMap::<.*>::keys$', r'^std::collections::HashSet::<.*>::iter$', r'^<&std::collections::HashSet<.*> as std::iter::IntoIterator>::into_iter$')
+def m_hm_keys(ex, n, a, f):
+    return bt_iter(ex, ex.deref(a[0]), 'keys')
+
+
+@model(r'^std::collections::HashMap::<.*>::values(_mut)?$')
+def m_hm_values(ex, n, a, f):
+    return bt_iter(ex, ex.deref(a[0]), 'values')
+
+
+@model(r'^<std::collections::HashMap<.*> as std::iter::IntoIterator>::into_iter$')
+def m_hm_into_iter(ex, n, a, f):
+    return bt_iter(ex, ex.force(a[0]), 'into_map')
+
+
+@model(r'^std::collections::HashMap::<.*>::into_values$')
+def m_hm_into_values(ex, n, a, f):
+    return bt_iter(ex, ex.force(a[0]), 'into_values')
+
+
+@model(r'^std::collections::HashMap::<.*>::into_keys$', r'^<std::collections::HashSet<.*> as std::iter::IntoIterator>::into_iter$')
+def m_hm_into_keys(ex, n, a, f):
+    return bt_iter(ex, ex.force(a[0]), 'into_keys')
+
+
+@model(r'^<std::collections::HashMap<.*> as std::iter::FromIterator<.*>>::from_iter::<')
+def m_hm_from_iter(ex, n, a, f):
+    m = HashMapV()
+    it = ex.force(a[0])
+    if isinstance(it, VecV):
+        it = IterV(list(it.cells), by_value=True)
+    for x in drain(ex, f, it):
+        bt_insert(ex, m, x.fields[0], x.fields[1])
+    return m
+
+
+@model(r'^<std::collections::HashSet<.*> as std::iter::FromIterator<.*>>::from_iter::<')
+def m_hset_from_iter(ex, n, a, f):
+    m = HashMapV()
+    it = ex.force(a[0])
+    if isinstance(it, VecV):
+        it = IterV(list(it.cells), by_value=True)
+    for x in drain(ex, f, it):
+        sk = sort_key(ex, x)
+        i, found = bt_find(m, sk)
+        if not found:
+            m.entries.insert(i, [sk, x, Cell(UNIT)])
+    return m
+
+
+@model(r'^<std::collections::HashMap<.*> as std::iter::Extend<.*>>::extend::<')
+def m_hm_extend(ex, n, a, f):
+    return m_bt_extend(ex, n, a, f)
 
 
 @model(r'^<std::collections::BTreeMap<.*> as std::ops::Index<.*>>::index$')
